@@ -62,6 +62,7 @@ class Tracer:
 
 
 TRACER = Tracer()
+_left_open = []
 ORIG_STREAMS = [None, None]   # set by the in-process driver: the objects the runner must restore
 CONTROL_DIR = None            # barrier files live here (scheduled driver)
 _SPEC = None
@@ -398,6 +399,12 @@ def do_actions(acts, where):
             import warnings
             if act[1] == 'simple':
                 warnings.simplefilter('ignore', ResourceWarning)
+            elif act[1] == 'rebind':
+                # a catch_warnings() block that is entered and never left: the module's filter list is another object now
+                cw = warnings.catch_warnings()
+                cw.__enter__()
+                _left_open.append(cw)
+                warnings.simplefilter('always', DeprecationWarning)
             else:
                 warnings.filterwarnings('error', message='ztv-generated-%s' % where)
         elif kind == 'settrace_cycle':
